@@ -29,6 +29,7 @@
 #include <sanitizer/common_interface_defs.h>
 
 SimKnobs K;
+int sim_stack_junk = -1;
 SimStats S;
 SimHooks sim_hooks;
 bool sim_trace;
@@ -268,6 +269,10 @@ static SimTask *task_new(SimProc *p) {
         if (m == MAP_FAILED) abort();
         mprotect(m, 4096, PROT_NONE);
         t->stack = m + 4096;
+        if (sim_stack_junk >= 0) {   /* fresh stacks are zero pages: make reads of uninitialised locals visible */
+            size_t fill = 2u << 20;
+            memset((char *)t->stack + t->stack_sz - fill, sim_stack_junk & 0xff, fill);
+        }
         getcontext(&t->ctx);
         t->ctx.uc_stack.ss_sp = t->stack; t->ctx.uc_stack.ss_size = t->stack_sz; t->ctx.uc_link = NULL;
         makecontext(&t->ctx, task_trampoline, 0);
@@ -998,6 +1003,7 @@ int __real_nanosleep(const struct timespec *, struct timespec *);
 int __wrap_nanosleep(const struct timespec *rq, struct timespec *rm) { if (!cur) return __real_nanosleep(rq, rm); (void)rm; pre_sys("nanosleep", -1, 0); sim_sleep_us((uint64_t)rq->tv_sec * 1000000 + (uint64_t)rq->tv_nsec / 1000); return 0; }
 static uint64_t epoch_base = 1700000000ull;
 void sim_set_epoch(uint64_t e) { epoch_base = e; }
+void sim_set_next_pid(int p) { next_pid = p; }
 time_t __wrap_time(time_t *t) { if (!cur) return __real_time(t); time_t v = (time_t)(epoch_base + now_us / 1000000); if (t) *t = v; return v; }
 int __real_clock_gettime(clockid_t, struct timespec *);
 int __wrap_clock_gettime(clockid_t c, struct timespec *ts) {
